@@ -425,7 +425,7 @@ impl Report {
             let res = catch_unwind(AssertUnwindSafe(|| body(*idx, &mut ctx)));
             let again: Vec<String> = match &res {
                 Ok(()) => ctx.fails.iter().map(|f| f.key.clone()).collect(),
-                Err(_) => vec!["panic".to_string()],
+                Err(_) => vec!["unexpected-panic".to_string()],
             };
             let first: Vec<String> = fails.iter().map(|f| f.key.clone()).collect();
             if again != first {
